@@ -1,5 +1,5 @@
 """F15 probe: a lost response to send_and_wait_for_response_processed is never re-sent and blocks for ever.
-Run: cd /repo && /venv/bin/python /verif/findings/probes/probe_f15_fast_retry.py"""
+Run: PYTHONPATH=/repo /venv/bin/python /verif/findings/probes/probe_f15_fast_retry.py"""
 import asyncio
 from mpf.platforms.fast.communicators.base import FastSerialCommunicator
 
